@@ -654,6 +654,11 @@ def run_check(pid, tier, seed, replay):
             if sig in known_sigs:
                 known_printed.append((sig, known_sigs[sig]["text"], len(items)))
                 continue
+            if name == "diag_compile":
+                # the table obligations could not even be evaluated: no concrete offending entry is known
+                violations.append(("proof-break", "Diag/%s.v" % pid, {"obligation": "Diag/%s.v (table obligations) does not compile" % pid,
+                                                                      "error": items[:3]}, True))
+                continue
             violations.append(("counterexample", name, {"theorem": name, "offending_entries": items[:20]}, False))
     if proof_broken:
         has_ce = any(v[0] == "counterexample" for v in violations)
